@@ -490,7 +490,7 @@ func phisOf(b *ssa.BasicBlock) []*ssa.Phi {
 
 func (fr *Frame) loopEnv(li *loopInfo, st *State, phiVal func(*ssa.Phi) Term, ghosts map[string]Binding) *Env {
 	env := fr.baseEnv(st)
-	env.resolve = func(name string) (Term, Ty, bool) {
+	env.resolve = func(name string, st *State) (Term, Ty, bool) {
 		if gb, ok := ghosts[name]; ok {
 			return gb.T, gb.Ty, true
 		}
@@ -516,7 +516,52 @@ func (fr *Frame) baseEnv(st *State) *Env {
 	for k, v := range fr.ghosts {
 		env.vars[k] = v
 	}
+	env.resolve = func(name string, s2 *State) (Term, Ty, bool) {
+		return fr.resolveFreeVar(name, s2)
+	}
+	env.resolveAddr = fr.localAddr
 	return env
+}
+
+// localAddr returns the address of an address-taken local variable or of a captured variable.
+func (fr *Frame) localAddr(name string) (string, types.Type, bool) {
+	for _, fv := range fr.fn.FreeVars {
+		if fv.Name() == name {
+			if t, ok := fr.vals[fv]; ok {
+				if p, ok := fv.Type().Underlying().(*types.Pointer); ok {
+					return t.S, p.Elem(), true
+				}
+			}
+		}
+	}
+	for _, b := range fr.fn.Blocks {
+		for _, ins := range b.Instrs {
+			if al, ok := ins.(*ssa.Alloc); ok && al.Comment == name {
+				if t, ok := fr.vals[al]; ok {
+					return t.S, al.Type().Underlying().(*types.Pointer).Elem(), true
+				}
+			}
+		}
+	}
+	return "", nil, false
+}
+
+// resolveFreeVar resolves a captured variable of a closure by name (loaded through its cell).
+func (fr *Frame) resolveFreeVar(name string, st *State) (Term, Ty, bool) {
+	g := fr.g
+	for _, fv := range fr.fn.FreeVars {
+		if fv.Name() == name {
+			t, ok := fr.vals[fv]
+			if !ok {
+				return Term{}, Ty{}, false
+			}
+			if p, ok := fv.Type().Underlying().(*types.Pointer); ok {
+				return g.load(st, t.S, p.Elem()), goTy(p.Elem()), true
+			}
+			return t, goTy(fv.Type()), true
+		}
+	}
+	return Term{}, Ty{}, false
 }
 
 func (fr *Frame) rootEntry() *State {
@@ -969,9 +1014,18 @@ func (g *Gen) bindParams(fr *Frame, fresh bool) []Term {
 	var terms []Term
 	var names []string
 	fc := fr.contract
+	pnames := []string(nil)
+	if fc != nil {
+		pnames = fc.ParamNames
+		if fc.Recv != "" && len(pnames) == len(fn.Params)+1 {
+			pnames = pnames[1:] // closure of a method: the receiver is a free variable, not a parameter
+		}
+	}
 	for i, p := range fn.Params {
 		name := p.Name()
-		if fc != nil && i < len(fc.ParamNames) && fc.ParamNames[i] != "" && fc.ParamNames[i] != "_" && fc.ParamNames[i] != "_recv" {
+		if fc != nil && i < len(pnames) && pnames[i] != "" && pnames[i] != "_" && pnames[i] != "_recv" {
+			name = pnames[i]
+		} else if false && i < len(fc.ParamNames) && fc.ParamNames[i] != "" && fc.ParamNames[i] != "_" && fc.ParamNames[i] != "_recv" {
 			name = fc.ParamNames[i]
 		}
 		names = append(names, name)
